@@ -124,6 +124,11 @@ func (n *Native) Build(ld *Loaded) {
 	prePath := filepath.Join(dir, "zz_vpprelude.go")
 	os.WriteFile(prePath, pre, 0o644)
 	overlay[filepath.Join(*flagRepo, n.PkgDir, "zz_vpprelude.go")] = prePath
+	if hp := httpPreludeFor(n.PkgDir, pkgName); hp != nil {
+		hpPath := filepath.Join(dir, "zz_vpprelude_http.go")
+		os.WriteFile(hpPath, hp, 0o644)
+		overlay[filepath.Join(*flagRepo, n.PkgDir, "zz_vpprelude_http.go")] = hpPath
+	}
 	sort.Strings(names)
 	var hb strings.Builder
 	for _, nm := range names {
